@@ -147,12 +147,27 @@ func buildConfig(g c09group, pattern []int, exprParent bool, useLevel int) *Prog
 			}
 		}
 		body = append(body, tx("IGNORED-"+tname(k)), pr(&gen.ECall{Fn: "fn", Args: []gen.Expr{str("ignored")}}))
+		// ... nor does anything else outside the blocks of a child render (text only: whether such statements
+		// are executed silently is not claimed)
+		switch k % 4 {
+		case 1:
+			body = append(body, &gen.NIf{Conds: []gen.Expr{&gen.EBool{V: true}}, Bodies: [][]gen.Node{{tx("STRAY-if")}}})
+		case 2:
+			body = append(body, &gen.NFor{Val: "sv", Seq: &gen.EArr{Els: []gen.Expr{num(1), num(2)}}, Body: []gen.Node{tx("STRAY-for")}})
+		case 3:
+			body = append(body, &gen.NFilter{Filters: []string{"up"}, Body: []gen.Node{tx("stray-filter")}}, &gen.NSetCap{Name: "strayc", Body: []gen.Node{tx("stray-capture")}})
+		}
 		for j := 0; j < g.B; j++ {
 			switch pattern[(k-1)*g.B+j] {
 			case 1:
 				body = append(body, &gen.NBlock{Name: "b" + strconv.Itoa(j), Body: blockBody(fmt.Sprintf("t%d.b%d", k, j), false)})
 			case 2:
 				bb := blockBody(fmt.Sprintf("t%d.b%d", k, j), true)
+				if g.layout == 0 && j+1 < g.B && (k+j)%3 == 1 {
+					// another block rendered through block() in front of the parent() call: afterwards parent()
+					// still means the parent of THIS block (b_j only ever calls b_j+1, so this cannot recurse)
+					bb = append([]gen.Node{bb[0], tx("/"), pr(&gen.EBlockFn{Name: str("b" + strconv.Itoa(j+1))}), tx("/")}, bb[1:]...)
+				}
 				if (k+j)%2 == 0 {
 					// a nested block of its own before the parent() call
 					nested := &gen.NBlock{Name: fmt.Sprintf("n%d%d", k, j), Body: blockBody(fmt.Sprintf("t%d.n%d%d", k, k, j), false)}
@@ -254,7 +269,7 @@ func (p *c09) Run(i int) (res fw.Result) {
 }
 
 func (p *c09) Rule() string {
-	return "bounded-exhaustive configurations: chain length L x block names B x for every non-root level and block one of {absent, override, override calling parent() - half of those with a nested block of their own in front of the call} (3^((L-1)B) patterns) x root layout {flat, blocks nested in b0, each block inside a 2-iteration loop} x use at one level {none, plain import of the last block name whose body calls parent(), aliased import 'orig0 as b0', the same library imported by the first child with that alias AND by the leaf without (L>=3), two use statements in one template (B>=2)}; half of the parent()-calling bodies, and every imported one, call parent() twice; quick: L<=3, B<=2, all layouts and use variants; thorough: full product L<=4, B<=4 on the flat layout (3^12 patterns at the top size) and L<=4, B<=3 for the other layouts/use variants. Parents are named by an expression ('t' ~ '0') in a third of the cases; every child has content outside blocks that must not render. Random: larger shapes with block() calls, a root-only block in a loop with a nested block overridden by the leaf. Every block body prints a unique marker and calls a recording function; oracle = reference model output and the callback log including Context.Name() (must be the defining template, also inside parent() bodies). Non-trivial = chain >= 2 with >= 1 override; enumerated configurations are distinct by construction."
+	return "bounded-exhaustive configurations: chain length L x block names B x for every non-root level and block one of {absent, override, override calling parent() - half of those with a nested block of their own in front of the call} (3^((L-1)B) patterns) x root layout {flat, blocks nested in b0, each block inside a 2-iteration loop} x use at one level {none, plain import of the last block name whose body calls parent(), aliased import 'orig0 as b0', the same library imported by the first child with that alias AND by the leaf without (L>=3), two use statements in one template (B>=2)}; half of the parent()-calling bodies, and every imported one, call parent() twice, a third render the next block through block() in front of parent(); children have a stray if / for / filter section / capture outside their blocks; quick: L<=3, B<=2, all layouts and use variants; thorough: full product L<=4, B<=4 on the flat layout (3^12 patterns at the top size) and L<=4, B<=3 for the other layouts/use variants. Parents are named by an expression ('t' ~ '0') in a third of the cases; every child has content outside blocks that must not render. Random: larger shapes with block() calls, a root-only block in a loop with a nested block overridden by the leaf. Every block body prints a unique marker and calls a recording function; oracle = reference model output and the callback log including Context.Name() (must be the defining template, also inside parent() bodies). Non-trivial = chain >= 2 with >= 1 override; enumerated configurations are distinct by construction."
 }
 
 func (p *c09) Assumptions() []string {
